@@ -55,7 +55,10 @@ CAST_PRE = '''
         // a cast only computes: no store, no load, no call, no branch
         pure_ext(*old(builder), *final(builder)),
 '''
-u.extract(M, 'fn cast_num', contract=CAST_PRE, inserts=[('@body_start', 'after', '''
+# termination measure, should cast_num ever call itself (float -> int via an int -> int step)
+CAST_DEC = '''    decreases (if cast_from.float { 1nat } else { 0nat })
+'''
+u.extract(M, 'fn cast_num', contract=CAST_PRE + CAST_DEC, inserts=[('@body_start', 'after', '''
     proof {
         lemma_pow2_values();
         if !cast_from.float {
